@@ -707,3 +707,278 @@ Section Once.
     destruct st2 as [c2 hs2]. cbn [fst snd] in *. apply once_hit; assumption.
   Qed.
 End Once.
+
+(** ================= C03: the caching server simulates the cache-less server ================= *)
+Section TransparencyX.
+  Variable hstate : Type.
+  Variable compute : hstate -> request -> option (bytes * option bytes) -> bool -> fatx * hstate * list bytes.
+  Variable ims_on : bool.
+  Variable fix_clear : bool.
+  Variable sfilter : N -> bool.
+  Variable parse_ims : bytes -> option Z.
+  Variable sanitize_ok : request -> bool.
+  Variable prime : request -> request.
+  Variable override : request -> option (bytes * option bytes).
+  Variable negotiate : request -> fatx -> option (N * bytes).
+  Variable vary_tuple : request -> tuple.
+  Variable vary_header : request -> fatx -> list (bytes * bytes).
+  Variable clear_alias : request -> option request.
+
+  (** the handler contract of the property: the response is a function [cf] of the request (not of handler state)
+      that depends only on the method class, the path of the URI that selects the handler (the internal route if
+      a Prime overrode the URI), the vary tuple and — for QueryMatters — the query; query-matters-ness is uniform
+      per path; error responses (sanitize failed) are not cacheable *)
+  Variable cf : request -> option (bytes * option bytes) -> bool -> fatx.
+  Hypothesis Hpure : forall hs r ov ok, fst (fst (compute hs r ov ok)) = cf r ov ok.
+  Hypothesis contract : forall r ov r' ov',
+    get_or_head (rq_method r) = true -> get_or_head (rq_method r') = true ->
+    vary_tuple r = vary_tuple r' -> rq_path (lookup_req r ov) = rq_path (lookup_req r' ov') ->
+    (qmx (cf r ov true) = true -> path_query (lookup_req r ov) = path_query (lookup_req r' ov')) ->
+    cf r ov true = cf r' ov' true.
+  Hypothesis pref_uniform : forall r ov r' ov',
+    rq_path (lookup_req r ov) = rq_path (lookup_req r' ov') -> qmx (cf r ov true) = qmx (cf r' ov' true).
+  Hypothesis Herr : forall r ov, f_spref (fx_fat (cf r ov false)) = SP_NONE.
+
+  Notation finishT := (finishX true negotiate vary_header).
+  Notation serveC := (serveX hstate compute true ims_on true true true sfilter parse_ims sanitize_ok prime override
+                             negotiate vary_tuple vary_header).
+  Notation serveU := (serveX hstate compute false ims_on true true true sfilter parse_ims sanitize_ok prime override
+                             negotiate vary_tuple vary_header).
+  Notation stepC := (stepX hstate compute true ims_on true true fix_clear true sfilter parse_ims sanitize_ok prime
+                           override negotiate vary_tuple vary_header clear_alias).
+  Notation stepU := (stepX hstate compute false ims_on true true fix_clear true sfilter parse_ims sanitize_ok prime
+                           override negotiate vary_tuple vary_header clear_alias).
+  Notation runC := (runX hstate compute true ims_on true true fix_clear true sfilter parse_ims sanitize_ok prime
+                         override negotiate vary_tuple vary_header clear_alias).
+  Notation runU := (runX hstate compute false ims_on true true fix_clear true sfilter parse_ims sanitize_ok prime
+                         override negotiate vary_tuple vary_header clear_alias).
+  Notation runC_state := (runX_state hstate compute true ims_on true true fix_clear true sfilter parse_ims sanitize_ok prime
+                                     override negotiate vary_tuple vary_header clear_alias).
+
+  Definition key_okx (k : key) (lr : request) (x : fatx) : Prop :=
+    match k with
+    | KPath p => rq_path lr = p /\ qmx x = false
+    | KPathQuery s i => path_query lr = (s, i)
+    end.
+  Definition var_okx (k : key) (v : variant) : Prop :=
+    exists r ov, get_or_head (rq_method r) = true /\ vary_tuple r = v_tuple v /\ v_resp v = cf r ov true /\
+                 key_okx k (lookup_req r ov) (v_resp v).
+  Definition entry_okx (k : key) (e : entryx) : Prop :=
+    ex_vars e <> [] /\ forall v, In v (ex_vars e) -> var_okx k v.
+  Definition TInv (c : cachex) : Prop := forall k e, xc_find k c = Some e -> entry_okx k e.
+
+  Lemma TInv_nil : TInv [].
+  Proof. intros k e H. discriminate. Qed.
+  Lemma TInv_remove k c : TInv c -> TInv (xc_remove k c).
+  Proof. intros H k0 e0. rewrite xc_find_remove. destruct (key_eqb k0 k); [discriminate|]. apply H. Qed.
+  Lemma TInv_insert k e c : TInv c -> entry_okx k e -> TInv (xc_insert k e c).
+  Proof.
+    intros H He k0 e0. rewrite xc_find_insert. destruct (key_eqb k0 k) eqn:E.
+    - intros H0; inversion H0; subst. apply key_eqb_eq in E. subst. exact He.
+    - apply H.
+  Qed.
+  Lemma TInv_lookup lr c now k res c' : xlookup lr c now = ((k, res), c') -> TInv c -> TInv c'.
+  Proof.
+    intros L I k0 e0 F. destruct (xlookup_cases _ _ _ _ _ _ L) as (_ & Hc & _).
+    destruct (Hc k0) as [E | [E _]]; rewrite E in F; [eapply I; exact F | discriminate].
+  Qed.
+
+  Lemma key_ok_insert lr x : key_okx (insert_key lr (fx_fat x)) lr x.
+  Proof.
+    unfold insert_key, key_okx. fold (qmx x). destruct (qmx x) eqn:Q.
+    - unfold key_pq. destruct (path_query lr). reflexivity.
+    - unfold key_p. split; reflexivity.
+  Qed.
+
+  (** what a hit returns is what the layer below would compute for this request *)
+  Lemma hit_is_cf c now r ov k e c1 v :
+    TInv c -> xlookup (lookup_req r ov) c now = ((k, Some e), c1) -> get_or_head (rq_method r) = true ->
+    xv_find (vary_tuple r) (ex_vars e) = Some v -> v_resp v = cf r ov true.
+  Proof.
+    intros I L GH V. destruct (xlookup_cases _ _ _ _ _ _ L) as (Hk & _ & F & _ & _).
+    destruct (I _ _ F) as [_ Hvars]. destruct (xv_find_in _ _ _ V) as [Hin Ht].
+    destruct (Hvars v Hin) as (r1 & ov1 & GH1 & T1 & F1 & K1). rewrite F1. rewrite F1 in K1.
+    apply contract; try assumption; [congruence | |].
+    - destruct Hk as [-> | ->]; unfold key_okx, key_pq, key_p in K1.
+      + destruct (path_query (lookup_req r ov)) as [s i] eqn:PQ. apply path_query_path. congruence.
+      + destruct K1 as [K1 _]. exact K1.
+    - intros Q. destruct Hk as [-> | ->]; unfold key_okx, key_pq, key_p in K1.
+      + destruct (path_query (lookup_req r ov)) as [s i] eqn:PQ. congruence.
+      + destruct K1 as [_ K1]. congruence.
+  Qed.
+
+  Definition replyx_equiv (a c : replyx) : Prop :=
+    rx_status a = rx_status c /\ rx_headers a = rx_headers c /\ rx_pad a = rx_pad c /\ rx_body a = rx_body c /\
+    rx_ipad a = rx_ipad c /\ rx_identity a = rx_identity c /\ rx_stream a = rx_stream c.
+
+  Lemma finish_equiv_x r x lm1 c1 m1 lm2 c2 m2 : replyx_equiv (finishT r x lm1 c1 m1) (finishT r x lm2 c2 m2).
+  Proof.
+    unfold finishX. rewrite !orb_true_r.
+    destruct (if is_stream x then None else negotiate r x) as [[st body]|]; repeat split.
+  Qed.
+
+  Definition no_imsx (r0 : request) : Prop :=
+    ims_on = false \/ header (B "if-modified-since") (prime r0) = None.
+
+  Lemma compute_cf hs r ov ok x hs' lg : compute hs r ov ok = (x, hs', lg) -> x = cf r ov ok.
+  Proof. intros H. rewrite <- (Hpure hs r ov ok), H. reflexivity. Qed.
+
+  Lemma cc_tinv c1 now r ov ok k found c2 :
+    TInv c1 -> (ok = true \/ ok = false) ->
+    (forall e, found = Some e -> xc_find k c1 = Some e /\ (k = key_pq (lookup_req r ov) \/ k = key_p (lookup_req r ov))) ->
+    cache_change ims_on true sfilter parse_ims vary_tuple c1 now r ov ok k found (cf r ov ok) c2 -> TInv c2.
+  Proof.
+    intros I Hok Hf CC. destruct CC as [ | A G | e Ef G Im V A ].
+    - exact I.
+    - assert (Hok' : ok = true).
+      { destruct ok; [reflexivity|]. apply may_store_x_iff in A. rewrite Herr in A. tauto. }
+      subst ok. assert (GH : get_or_head (rq_method r) = true) by (apply may_store_x_iff in A; tauto).
+      apply TInv_insert; [exact I|]. split; [cbn; discriminate|]. cbn [ex_vars]. intros v [<- | []].
+      exists r, ov. cbn [v_tuple v_resp]. repeat split; try assumption; try reflexivity. apply key_ok_insert.
+    - apply andb_true_iff in G as [Gok GH]. subst ok. destruct (Hf e Ef) as [F Hk].
+      destruct (I _ _ F) as [Hne Hvars].
+      apply TInv_insert; [exact I|]. split; [cbn; discriminate|]. cbn [ex_vars]. intros v [<- | Hin]; [|apply Hvars; exact Hin].
+      exists r, ov. cbn [v_tuple v_resp]. repeat split; try assumption; try reflexivity.
+      destruct Hk as [-> | ->]; unfold key_okx, key_pq, key_p.
+      + destruct (path_query (lookup_req r ov)). reflexivity.
+      + split; [reflexivity|].
+        destruct (ex_vars e) as [|v1 rest] eqn:Ev; [congruence|].
+        destruct (Hvars v1 (or_introl eq_refl)) as (r1 & ov1 & _ & _ & F1 & K1).
+        unfold key_okx, key_p in K1. destruct K1 as [P1 Q1]. rewrite F1 in Q1.
+        rewrite (pref_uniform r ov r1 ov1) by congruence. exact Q1.
+  Qed.
+
+  Lemma serve_simx c hs now r0 st' rp lg cU hsU :
+    serveC (c, hs) now r0 = (st', rp, lg) -> TInv c -> no_imsx r0 ->
+    TInv (fst st') /\ replyx_equiv rp (snd (fst (serveU (cU, hsU) now r0))).
+  Proof.
+    intros H I Hims.
+    set (r := prime r0) in *. set (ov := override r0) in *. set (ok := sanitize_ok r0) in *.
+    assert (HU : snd (fst (serveU (cU, hsU) now r0)) = finishT r (cf r ov ok) false false true).
+    { unfold serveX. cbn [negb]. fold r ov ok. destruct (compute hsU r ov ok) as [[x h] l] eqn:C.
+      cbn [fst snd]. apply compute_cf in C. subst. reflexivity. }
+    rewrite HU. clear HU. split.
+    - (* the invariant *)
+      destruct (serve_cache_update _ _ _ _ _ _ _ _ _ _ _ _ _ _ _ _ _ _ _ _ H) as (k & found & c1 & L & CC).
+      fold r ov ok in L, CC. rewrite Hpure in CC.
+      pose proof (TInv_lookup _ _ _ _ _ _ L I) as I1.
+      apply (cc_tinv c1 now r ov ok k found (fst st') I1); [destruct ok; auto | | exact CC].
+      intros e Ef. destruct (xlookup_cases _ _ _ _ _ _ L) as (Hk & _ & Hres). rewrite Ef in Hres.
+      split; [apply Hres | exact Hk].
+    - (* the reply *)
+      unfold serveX in H. cbn [negb] in H. fold r ov ok in H.
+      destruct (xlookup (lookup_req r ov) c now) as [[k found] c1] eqn:L.
+      assert (Hmiss : forall st2 rp2 lg2,
+                 missX hstate compute true ims_on true true sfilter negotiate vary_tuple vary_header c1 hs now r ov ok = (st2, rp2, lg2) ->
+                 replyx_equiv rp2 (finishT r (cf r ov ok) false false true)).
+      { intros st2 rp2 lg2 M. unfold missX in M. destruct (compute hs r ov ok) as [[x hs'] lg'] eqn:C.
+        apply compute_cf in C. subst x.
+        destruct (may_store_x true sfilter (rq_method r) (cf r ov ok)); inversion M; subst; apply finish_equiv_x. }
+      destruct found as [e|]; [|eapply Hmiss; exact H].
+      destruct (ok && get_or_head (rq_method r)) eqn:G; [|eapply Hmiss; exact H].
+      apply andb_true_iff in G as [Gok GH]. rewrite Gok in *.
+      assert (Hno : (match (if ims_on then match header (B "if-modified-since") r with
+                                             | Some v => parse_ims v | None => None end else None) with
+                     | Some t => ims_fresh t (ex_created e) | None => false end) = false).
+      { destruct Hims as [-> | Hh]; [reflexivity|]. fold r in Hh. rewrite Hh. destruct ims_on; reflexivity. }
+      rewrite Hno in H. clear Hno.
+      destruct (xv_find (vary_tuple r) (ex_vars e)) as [v|] eqn:V.
+      + inversion H; subst. rewrite (hit_is_cf _ _ _ _ _ _ _ _ I L GH V). apply finish_equiv_x.
+      + unfold vary_missingX in H. destruct (compute hs r ov true) as [[x hs'] lg'] eqn:C. apply compute_cf in C. subst x.
+        destruct (may_store_x true sfilter (rq_method r) (cf r ov true)); inversion H; subst; apply finish_equiv_x.
+  Qed.
+
+  Definition obsx_equiv (a c : obsx) : Prop :=
+    match a, c with
+    | XbReply ra _, XbReply rc _ => replyx_equiv ra rc
+    | XbCleared _ _, XbCleared _ _ => True
+    | XbNone, XbNone => True
+    | _, _ => False
+    end.
+  Definition op_no_imsx (o : opx) : Prop := match o with XReq r => no_imsx r | _ => True end.
+
+  Lemma step_simx c hs cU hsU now o :
+    TInv c -> op_no_imsx o ->
+    let '(stC, nowC, obC) := stepC (c, hs) now o in
+    let '(stU, nowU, obU) := stepU (cU, hsU) now o in
+    TInv (fst stC) /\ nowC = nowU /\ obsx_equiv obC obU.
+  Proof.
+    intros I Hno. destruct o as [r | r | | ms]; cbn [stepX].
+    - destruct (serveC (c, hs) now r) as [[stC rp] lg] eqn:SC.
+      destruct (serveU (cU, hsU) now r) as [[stU rpU] lgU] eqn:SU.
+      destruct (serve_simx _ _ _ _ _ _ _ cU hsU SC I Hno) as [I' E]. rewrite SU in E. cbn [fst snd] in E.
+      split; [exact I' | split; [reflexivity | exact E]].
+    - cbn [fst]. split; [| split; [reflexivity | exact Logic.I]]. unfold xclear_page, xclear_uri.
+      destruct (if fix_clear then clear_alias r else None); repeat apply TInv_remove; exact I.
+    - cbn [fst]. split; [| split; [reflexivity | exact Logic.I]]. apply TInv_nil.
+    - cbn [fst]. split; [| split; [reflexivity | exact Logic.I]]. exact I.
+  Qed.
+
+  Lemma run_simx ops : forall c hs cU hsU now,
+    TInv c -> Forall op_no_imsx ops ->
+    Forall2 obsx_equiv (runC (c, hs) now ops) (runU (cU, hsU) now ops).
+  Proof.
+    induction ops as [|o ops IH]; intros c hs cU hsU now I Hno; cbn [runX]; [constructor|].
+    inversion Hno as [|? ? Ho Hrest]; subst.
+    pose proof (step_simx c hs cU hsU now o I Ho) as S.
+    destruct (stepC (c, hs) now o) as [[[c' hs'] nowC] obC].
+    destruct (stepU (cU, hsU) now o) as [[[cU' hsU'] nowU] obU].
+    destruct S as (I' & En & Eo). subst nowU. constructor; [exact Eo|]. apply IH; assumption.
+  Qed.
+
+  Lemma run_tinv ops : forall st now, TInv (fst st) -> Forall op_no_imsx ops -> TInv (fst (fst (runC_state st now ops))).
+  Proof.
+    induction ops as [|o ops IH]; intros [c hs] now I Hno; cbn [runX_state]; [exact I|].
+    inversion Hno as [|? ? Ho Hrest]; subst.
+    pose proof (step_simx c hs c hs now o I Ho) as S.
+    destruct (stepC (c, hs) now o) as [[stC nowC] obC]. destruct (stepU (c, hs) now o) as [[stU nowU] obU].
+    destruct S as (I' & _ & _). apply IH; assumption.
+  Qed.
+
+  (** an entry stored for one path / query / method class / variant is never served for another *)
+  Lemma hit_same_class_x c now lr k e c1 v :
+    TInv c -> xlookup lr c now = ((k, Some e), c1) -> xv_find (v_tuple v) (ex_vars e) = Some v ->
+    exists r1 ov1, get_or_head (rq_method r1) = true /\ vary_tuple r1 = v_tuple v /\ v_resp v = cf r1 ov1 true /\
+                   rq_path (lookup_req r1 ov1) = rq_path lr /\
+                   (qmx (v_resp v) = true -> path_query (lookup_req r1 ov1) = path_query lr).
+  Proof.
+    intros I L V. destruct (xlookup_cases _ _ _ _ _ _ L) as (Hk & _ & F & _ & _).
+    destruct (I _ _ F) as [_ Hvars]. destruct (xv_find_in _ _ _ V) as [Hin _].
+    destruct (Hvars v Hin) as (r1 & ov1 & GH1 & T1 & F1 & K1). exists r1, ov1. repeat split; try assumption.
+    - destruct Hk as [-> | ->]; unfold key_okx, key_pq, key_p in K1.
+      + destruct (path_query lr) as [s i] eqn:PQ. apply path_query_path. congruence.
+      + destruct K1 as [K1 _]. exact K1.
+    - intros Q. destruct Hk as [-> | ->]; unfold key_okx, key_pq, key_p in K1.
+      + destruct (path_query lr) as [s i] eqn:PQ. congruence.
+      + destruct K1 as [_ K1]. congruence.
+  Qed.
+
+  (** C04, first clause, over histories: a response that is not admissible — handler declared no caching, method,
+      status filter, stream, size, kvarn-cache-control: none — is recomputed by every request, whatever the cache
+      holds (any state reachable by a history: [TInv] and [AdmInv] are invariants of [runX]) *)
+  Lemma uncacheable_recomputed c hs now r0 :
+    TInv c -> AdmInv sfilter c -> no_imsx r0 ->
+    may_store_x true sfilter (rq_method (prime r0)) (cf (prime r0) (override r0) (sanitize_ok r0)) = false ->
+    snd (serveC (c, hs) now r0) = snd (compute hs (prime r0) (override r0) (sanitize_ok r0)) /\
+    snd (fst (fst (serveC (c, hs) now r0))) = snd (fst (compute hs (prime r0) (override r0) (sanitize_ok r0))).
+  Proof.
+    intros I A Hims Hnot.
+    set (r := prime r0) in *. set (ov := override r0) in *. set (ok := sanitize_ok r0) in *.
+    unfold serveX. cbn [negb]. fold r ov ok.
+    destruct (xlookup (lookup_req r ov) c now) as [[k found] c1] eqn:L.
+    destruct found as [e|]; [|apply miss_computes_x].
+    destruct (ok && get_or_head (rq_method r)) eqn:G; [|apply miss_computes_x].
+    apply andb_true_iff in G as [Gok GH]. rewrite Gok in *.
+    assert (Hno : (match (if ims_on then match header (B "if-modified-since") r with
+                                           | Some v => parse_ims v | None => None end else None) with
+                   | Some t => ims_fresh t (ex_created e) | None => false end) = false).
+    { destruct Hims as [-> | Hh]; [reflexivity|]. fold r in Hh. rewrite Hh. destruct ims_on; reflexivity. }
+    rewrite Hno. destruct (xv_find (vary_tuple r) (ex_vars e)) as [v|] eqn:V.
+    - exfalso. pose proof (hit_is_cf _ _ _ _ _ _ _ _ I L GH V) as Ev.
+      destruct (xlookup_cases _ _ _ _ _ _ L) as (_ & _ & F & _ & _). destruct (xv_find_in _ _ _ V) as [Hin _].
+      pose proof (A _ _ _ F Hin) as Ad. rewrite Ev in Ad.
+      rewrite (may_store_x_method true sfilter (rq_method r) M_GET) in Hnot by (rewrite GH; reflexivity). congruence.
+    - unfold vary_missingX. destruct (compute hs r ov true) as [[x hs'] lg'].
+      destruct (may_store_x true sfilter (rq_method r) x); split; reflexivity.
+  Qed.
+End TransparencyX.
